@@ -119,16 +119,23 @@ class MacroCollisionCheck:
 
     def sym_part(s, ex, name):
         """1..2 upper-case letters over {A,B} followed by 0..1 lower-case letters over {a,b}; optional or not"""
-        nu = ex.decide([(1, True), (2, True)])
-        nl = ex.decide([(0, True), (1, True)])
+        if s.params.get('digits'):
+            # one upper-case letter, 0..1 lower-case letter, 0..1 trailing character that is neither (digit or underscore)
+            nu, nl = 1, ex.decide([(0, True), (1, True)])
+            nd = ex.decide([(0, True), (1, True)])
+        else:
+            nu = ex.decide([(1, True), (2, True)])
+            nl = ex.decide([(0, True), (1, True)])
+            nd = 0
         opt = ex.decide([(0, True), (1, True)]) == 1
         t = [s.letter(ex, f'{name}u{i}', (65, 66)) for i in range(nu)] + [s.letter(ex, f'{name}l{i}', (97, 98)) for i in range(nl)]
+        t += [s.letter(ex, f'{name}d{i}', (49, 50, 95)) for i in range(nd)]
         return (opt, t)
 
     def sym_decl(s, ex, name):
         n = ex.decide([(i, True) for i in range(1, s.max_parts + 1)]) if s.max_parts > 1 else 1
         parts = [s.sym_part(ex, f'{name}p{i}') for i in range(n)]
-        q = ex.decide([(0, True), (1, True)]) == 1
+        q = (ex.decide([(0, True), (1, True)]) == 1) if not s.params.get('queries_only') else True
         return Decl(parts, q)
 
     def near_decl(s, ex, name, tmpl):
@@ -264,21 +271,16 @@ def run_concrete(ex, decls):
     return out[1]
 
 
-def validate_paths(ex, decls):
-    """translator validation for the macro world: Command::paths executed from MIR on concrete declarations must equal the reference expansion"""
-    from ..oracle import expand_decl
+def spelling_sets(ex, decls):
+    """Command::try_from + paths executed from MIR on concrete declarations -> {decl: set of spelled paths (tuples of mnemonics)}"""
     try_from = find_fn(ex, '>::try_from', 1)
     paths_fn = find_fn(ex, '>::paths', 1)
-    bad = []
+    out_all = {}
     for d in decls:
         txt = list(d.encode())
         out, _ = ex.run_path([], lambda: ex.call_fn(paths_fn, [Ref([ex.call_fn(try_from, [Slice(txt, 0, len(txt), True)], None).f[0]], 0)], None))
         ex.end_path()
         if out[0] != 'ok':
-            bad.append((d, out))
-            continue
-        got = sorted({tuple(bytes(string_bytes(x)).decode() for x in deref(p).items) for p in deref(out[1]).items})
-        q, want = expand_decl(d)
-        if got != sorted(set(want) | ({()} if all(p.strip().startswith('[') for p in d.rstrip('?').split(':')) else set())):
-            bad.append((d, got, want))
-    return bad
+            raise Unsupported(f'Command::paths on {d!r}: {out}')
+        out_all[d] = [tuple(bytes(string_bytes(x)).decode() for x in deref(p).items) for p in deref(out[1]).items]
+    return out_all
